@@ -58,7 +58,6 @@ static inline void vp_mat_setup(mzd_t *M, word *blk, int pr, int prs, int nr, in
   M->high_bitmask = VP_LMASK(nc % 64);
   M->flags        = (uint8_t)((windowed ? VP_FLAG_WINDOWED : 0) | ((nc % 64) ? VP_FLAG_EXCESS : 0));
   M->data         = blk + VP_GUARD + (wi_t)r0 * prs + w0;
-  for (int i = 0; i < (int)sizeof(M->padding); ++i) M->padding[i] = 0;
   if (!windowed && (nc % 64)) {
     for (int r = 0; r < nr; ++r) M->data[(wi_t)r * prs + M->width - 1] &= VP_LMASK(nc % 64);
   }
